@@ -507,6 +507,27 @@ def job_spoof(job, tmp):
     return {"cut": k, "write_len": len(w), "nblobs_after_crash": nb0, "nblobs_after_two_appends": int(sa.nblobs)}
 
 
+def job_crafted(job, tmp):
+    """a valid 3-snapshot archive with ONE trailer member or field size replaced by a value near the integer limits"""
+    g = os.path.join(tmp, "cr.bin")
+    if os.path.exists(g):
+        os.remove(g)
+    sim = L.new_sim(rebound, {"n": 2, "integrator": "whfast"})
+    sim.save_to_file(g); sim.step(); sim.save_to_file(g); sim.step(); sim.save_to_file(g)
+    b = bytearray(open(g, "rb").read())
+    sa = rebound.Simulationarchive(g, process_warnings=False); offs = [int(sa.offset[i]) for i in range(3)]; del sa
+    t1 = offs[1] - 12; t2 = offs[2] - 12
+    what = job["what"]
+    p32 = lambda pos, v: b.__setitem__(slice(pos, pos + 4), struct.pack("<I", v & 0xffffffff))
+    p64 = lambda pos, v: b.__setitem__(slice(pos, pos + 8), struct.pack("<Q", v & (2**64 - 1)))
+    {"next_max": lambda: p32(t1 + 8, 0x7fffffff), "next_neg": lambda: p32(t1 + 8, 0x80000000), "next_m1": lambda: p32(t1 + 8, 0xffffffff),
+     "prev_neg": lambda: p32(t2 + 4, 0xfffffff0), "prev_max": lambda: p32(t2 + 4, 0x7fffffff), "idx_neg": lambda: p32(t2, 0xffffffff),
+     "size_big": lambda: p64(offs[1] + 8, 2**40), "size_2_63": lambda: p64(offs[1] + 8, 2**63), "size_m16": lambda: p64(offs[1] + 8, 2**64 - 16),
+     "size_m1": lambda: p64(offs[1] + 8, 2**64 - 1), "last_next_max": lambda: p32(len(b) - 4, 0x7fffffff)}[what]()
+    open(g, "wb").write(bytes(b))
+    return {"file": L.mask_padding(bytes(b), FT["end"][0], 64, True).hex() if job.get("bytes") else None, "index": L.lib_index(rebound, g)}
+
+
 def job_rerun(job, tmp):
     """what a user does after a crash during the FIRST write: if the file exposes a snapshot, restart from it; if opening reports
     an error (no complete snapshot), run the whole history again from the start with the same file name.  Either way the final
@@ -583,7 +604,7 @@ def main():
     with tempfile.TemporaryDirectory(prefix="c06drv") as tmp:
         for job in jobs:
             try:
-                r = {"hist": job_hist, "auto": job_auto, "open": job_open, "resume": job_resume, "spoof": job_spoof, "cycle": job_cycle, "resume1": job_resume1, "rerun": job_rerun, "many": job_many, "attach": job_attach, "autocrash": job_autocrash, "autoF": job_autoF, "autolive": job_autolive, "automix": job_automix, "disabled": job_disabled}[job["kind"]](job, tmp)
+                r = {"hist": job_hist, "auto": job_auto, "open": job_open, "resume": job_resume, "spoof": job_spoof, "cycle": job_cycle, "resume1": job_resume1, "rerun": job_rerun, "crafted": job_crafted, "many": job_many, "attach": job_attach, "autocrash": job_autocrash, "autoF": job_autoF, "autolive": job_autolive, "automix": job_automix, "disabled": job_disabled}[job["kind"]](job, tmp)
             except Exception as e:
                 import traceback
                 r = {"exception": "%r" % (e,), "tb": traceback.format_exc()[-600:]}
